@@ -15,7 +15,7 @@ use std::sync::{Arc, Mutex};
 use std::time::Duration;
 
 pub const SIGMA_TOK: &[char] = &[
-    'a', '1', '_', '$', ' ', '\t', '\'', '"', '`', '[', ']', '\\', '?', ',', '=', 'é', '\u{a0}', '\u{3000}', '٣',
+    'a', '1', '_', '$', ' ', '\t', '\n', '\r', '\'', '"', '`', '[', ']', '\\', '?', ',', '=', 'é', '\u{a0}', '\u{3000}', '٣',
 ];
 
 fn closer(open: char) -> char {
